@@ -2,7 +2,8 @@
 // plus every file given on the command line) and ALL their single-edit mutants inside attribute arguments:
 //   * every contiguous run of 1..=3 token trees deleted, at every nesting depth of every #[..] attribute,
 //   * every whole attribute deleted,
-//   * the name of every type-level and member-level instruction replaced by each of the 24 instruction names.
+//   * the name of every type-level and member-level instruction replaced by each of the 24 instruction names,
+//   * every literal replaced by literals of 8 other shapes, every plain argument identifier replaced by an integer literal.
 // Each input is expanded under catch_unwind; a panic is reported with the input.  usage: mutants [files..]
 // prints {"suite":"c16","cases":N,"seeds":S,"failures":M} then PANIC\t<input>\t<message> lines (all of them)
 use proc_macro2::{Delimiter, Group, TokenStream, TokenTree};
@@ -55,6 +56,31 @@ fn mutate(tts: &[TokenTree], in_attr: bool, out: &mut Vec<Vec<TokenTree>>) {
                 let mut v = tts[..i].to_vec();
                 v.extend_from_slice(&tts[i + len..]);
                 out.push(v);
+            }
+        }
+        // a literal replaced by literals of other shapes (suffixed, beyond u32, negative-looking, float, string, char)
+        for i in 0..n {
+            if let TokenTree::Literal(_) = &tts[i] {
+                for alt in ["1u8", "0usize", "4294967296", "1.5", "\"s\"", "'c'", "0x10", "1_000"] {
+                    let mut v = tts.to_vec();
+                    let lit: TokenStream = alt.parse().unwrap();
+                    v[i] = lit.into_iter().next().unwrap();
+                    out.push(v);
+                }
+            }
+        }
+        // a plain argument identifier (not an instruction name) replaced by an integer literal, suffixed or not
+        for i in 0..n {
+            if let TokenTree::Ident(id) = &tts[i] {
+                let followed_by_group = matches!(tts.get(i + 1), Some(TokenTree::Group(_)));
+                if !NAMES.contains(&id.to_string().as_str()) && !followed_by_group {
+                    for alt in ["0", "1u8", "4294967296"] {
+                        let mut v = tts.to_vec();
+                        let lit: TokenStream = alt.parse().unwrap();
+                        v[i] = lit.into_iter().next().unwrap();
+                        out.push(v);
+                    }
+                }
             }
         }
         for i in 0..n {
